@@ -82,6 +82,34 @@ def ingest(src, pid, n, dest=None):
     return True
 
 
+def verify(names):
+    """re-verify stored changes against the CURRENT /repo HEAD (fix commits may have landed since they were written)"""
+    for name in (names or sorted(os.listdir(SEEDED))):
+        d = os.path.join(SEEDED, name)
+        patch, demo = os.path.join(d, "patch.diff"), os.path.join(d, "demo.py")
+        if not os.path.isfile(patch):
+            continue
+        wt = worktree()
+        try:
+            rc0, _, _ = sh(["/venv/bin/python", demo, wt], cwd=wt)
+            rca, _, err = sh(["git", "-C", wt, "apply", patch])
+            rct, rc1 = -1, -1
+            if rca == 0:
+                rct, _, _ = sh(["/venv/bin/python", "-m", "pytest", "-q", "-p", "no:cacheprovider"], cwd=wt)
+                rc1, _, _ = sh(["/venv/bin/python", demo, wt], cwd=wt)
+        finally:
+            drop(wt)
+        ok = rc0 == 0 and rca == 0 and rct == 0 and rc1 == 1
+        head = subprocess.check_output(["git", "-C", "/repo", "log", "--format=%h", "-1"]).decode().strip()
+        print("%s %s: demo clean rc=%d, apply rc=%d, tests rc=%d, demo patched rc=%d (repo %s)" % (
+            "OK     " if ok else "INVALID", name, rc0, rca, rct, rc1, head))
+        mp = os.path.join(d, "meta.json")
+        meta = json.load(open(mp))
+        meta["reverified"] = {"repo_head": head, "valid": ok, "demo_clean_rc": rc0, "apply_rc": rca, "tests_rc": rct, "demo_patched_rc": rc1}
+        with open(mp, "w") as f:
+            json.dump(meta, f, indent=1)
+
+
 def run(names, props, tier):
     if not names:
         names = sorted(os.listdir(SEEDED))
@@ -159,6 +187,8 @@ if __name__ == "__main__":
                 names.append(a[i])
                 i += 1
         run(names, props, tier)
+    elif a and a[0] == "verify":
+        verify(a[1:])
     elif a and a[0] == "matrix":
         matrix()
     else:
